@@ -112,7 +112,9 @@ Print Assumptions C17_200_only_after_open.
    the tunnel itself goes to the right port by C17_target) *)
 Theorem C17_host_normalised : forall r host port,
   wf_req r = true -> is_connect_req r = false -> spec_target r = Some (host, port) ->
-  spec_target (origin_form r) = Some (host, if port =? 443 then 80 else port) /  is_connect_req (origin_form r) = false /  wf_host_hdrb (match r_host (origin_form r) with Some hh => hh | None => norm_host_hdr (HName []) 0 end) = true.
+  spec_target (origin_form r) = Some (host, if port =? 443 then 80 else port) /\
+  is_connect_req (origin_form r) = false /\
+  wf_host_hdrb (match r_host (origin_form r) with Some hh => hh | None => norm_host_hdr (HName []) 0 end) = true.
 Proof. exact origin_form_names_same_target. Qed.
 Print Assumptions C17_host_normalised.
 
